@@ -48,6 +48,9 @@ def search(su, U, k, K, kind, early=False, resume=False, k2=0, timeout_s=300, so
             bad.append(-M.conj(property_items("struct", h.st, su.rules)))
         if kind == "closed" and not resume:
             bad.append(c.and2(-rv, -M.conj(property_items("closed", h.st, su.rules))))
+        if kind == "enum":          # C15: after close() some element of an enum type is not a constructor value
+            import lemmas as L
+            bad.append(-M.conj(L.inv_enum(su, h.st)))
         if kind == "noalloc":       # C06: close() allocated an element, created a class, or needs more than K iterations
             for t in h.sch.types:
                 bad.append(-V.int_eq(h.st.nelems(t), lens0[t]))
@@ -84,6 +87,8 @@ def replay(su, sch, harness, name, script, kind, rules, U=8):
     lines = []
     if kind == "noalloc":
         return replay_noalloc(su, sch, harness, name, script)
+    if kind == "enum":
+        return replay_enum(su, sch, harness, name, script)
     for l in script:
         # a plain close() is replayed as close_until with a condition that never holds, so that the state is
         # also dumped at every evaluation of the condition (observation points of C04)
@@ -117,6 +122,45 @@ def replay(su, sch, harness, name, script, kind, rules, U=8):
                 failing.append("%s: %s" % (where, lab))
             elif l != T:
                 raise RuntimeError("native state did not evaluate to a constant")
+    return bool(failing), failing
+
+
+def replay_enum(su, sch, harness, name, script):
+    """C15: after the script (ending in close) <enum>_case(el) must not panic for any element, and the returned constructor
+    applied to the returned arguments must equal el"""
+    import lemmas as L
+    import re as _re
+    ets = L.enum_types(su, sch)
+    rc, out, err = harness.run(name, list(script) + ["dump"], timeout=60)
+    if rc != 0:
+        return True, ["native run panics: " + err.strip().split("\n")[0][:200]]
+    dumps = [ev[2] for ev in N.parse_output(out) if ev[0] == "dump"]
+    last = dumps[-1]
+    failing = []
+    nt = set(su.prog.newtypes)
+    for t, (en, ctors) in sorted(ets.items()):
+        n = int(last[("uf", t)].split(" ", 1)[0])
+        for i in range(n):
+            rc, out, err = harness.run(name, list(script) + ["%s_case %d" % (t, i)], timeout=60)
+            if rc != 0:
+                failing.append("%s_case(%d) panics after the history: %s" % (t, i, err.strip().split("\n")[0][:160]))
+                continue
+            r = [e[1] for e in N.parse_output(out) if e[0] == "ret"][-1]
+            r = H.normalise_native_ret(r, nt)
+            mm = _re.match(r"^(\w+)(?:\((.*)\))?$", r)
+            vn = mm.group(1)
+            args = _re.findall(r"\d+", mm.group(2) or "")
+            rel = dict(ctors)[vn].name
+            rc2, out2, err2 = harness.run(name, list(script) + [" ".join([rel] + args)], timeout=60)
+            r2 = H.normalise_native_ret([e[1] for e in N.parse_output(out2) if e[0] == "ret"][-1], nt) if rc2 == 0 else "panic"
+            m2 = _re.match(r"^Some\((\d+)\)$", r2)
+            if not m2:
+                failing.append("%s_case(%d) = %s but %s(%s) = %s" % (t, i, r, rel, ", ".join(args), r2))
+                continue
+            rc3, out3, err3 = harness.run(name, list(script) + ["are_equal_%s %s %d" % (t, m2.group(1), i)], timeout=60)
+            r3 = [e[1] for e in N.parse_output(out3) if e[0] == "ret"][-1] if rc3 == 0 else "panic"
+            if r3.strip() != "true":
+                failing.append("%s_case(%d) = %s but %s(%s) = %s is not equal to the element" % (t, i, r, rel, ", ".join(args), r2))
     return bool(failing), failing
 
 
